@@ -258,6 +258,8 @@ type runtimeS struct {
 	objMu  sync.Mutex
 	objs   map[any]int
 	curObj int // connection index to bind the next unknown hook object to
+	tapByG map[int64]*lazyTap // goroutine that serves a logical connection of the demultiplexer -> its tap
+	objTap map[any]*lazyTap   // hook object -> tap of its connection (the index is learnt from the first envelope)
 	base   int // goroutine baseline
 	extra  []func()
 }
@@ -265,11 +267,32 @@ type runtimeS struct {
 func (rt *runtimeS) connOfObj(obj any) int {
 	rt.objMu.Lock()
 	defer rt.objMu.Unlock()
+	if t, ok := rt.objTap[obj]; ok {
+		return t.connIdx()
+	}
 	if c, ok := rt.objs[obj]; ok {
 		return c
 	}
+	// a server connection behind the demultiplexer: its handler object is first seen in the goroutine that
+	// called Serve (srv.new), long before the tap learns which client the connection belongs to
+	if t, ok := rt.tapByG[curGID()]; ok {
+		if rt.objTap == nil {
+			rt.objTap = map[any]*lazyTap{}
+		}
+		rt.objTap[obj] = t
+		return t.connIdx()
+	}
 	rt.objs[obj] = rt.curObj
 	return rt.curObj
+}
+
+// curGID is the id of the calling goroutine (harness bookkeeping only).
+func curGID() int64 {
+	var buf [64]byte
+	n := runtime.Stack(buf[:], false)
+	var id int64
+	fmt.Sscanf(string(buf[:n]), "goroutine %d ", &id)
+	return id
 }
 
 func (rt *runtimeS) hookEmit(name string, obj any, id uint64, n int, s string) {
